@@ -1300,11 +1300,13 @@ class FnAnalysis:
         init = self._initial_state()
         work = [(0, State(dict(init.env), init.facts), [])]
         n = 0
+        self._path_blocks = set()      # every block some enumerated path enters (including paths that end in a diverging call)
         while work:
             b, st, calls = work.pop()
             n += 1
             if n > limit * 40:
                 return None
+            self._path_blocks.add(b)
             self._path_calls = []
             outs = self._transfer(b, st, record=False)
             calls = calls + self._path_calls
